@@ -40,6 +40,10 @@ More information:
 Traceback (most recent call last):
     ...
 InvalidFormat: ...
+>>> validate('NO9986111117952')  # check digits are between 02 and 98
+Traceback (most recent call last):
+    ...
+InvalidChecksum: ...
 >>> compact('GR16 0110 1050 0000 1054 7023 795')
 'GR1601101050000010547023795'
 >>> format('GR1601101050000010547023795')
@@ -113,6 +117,9 @@ def validate(number, check_country=True):
     info = _ibandb.info(number)
     if not info[0][1]:
         raise InvalidComponent()
+    # the check digits 00, 01 and 99 are never the result of the calculation
+    if number[2:4] in ('00', '01', '99'):
+        raise InvalidChecksum()
     # check if the bban part of number has the correct structure
     bban = number[4:]
     if not _struct_to_re(info[0][1].get('bban', '')).match(bban):
